@@ -278,6 +278,15 @@ class SympyCondition(Condition):
     def replace_key(self, current: cirq.MeasurementKey, replacement: cirq.MeasurementKey):
         return SympyCondition(self.expr.subs({str(current): sympy.Symbol(str(replacement))}))
 
+    def _with_measurement_key_mapping_(self, key_map: Mapping[str, str]) -> cirq.Condition:
+        # All keys are renamed at once: replacing them one after the other would turn `a > b`
+        # under the map {a: b, b: a} into `a > a`.
+        substitutions = {
+            str(k): sympy.Symbol(str(mkp.with_measurement_key_mapping(k, key_map)))
+            for k in self.keys
+        }
+        return SympyCondition(self.expr.subs(substitutions, simultaneous=True))
+
     def __str__(self):
         return str(self.expr)
 
